@@ -261,6 +261,25 @@ def r06_6(ctx, fx):
         ctx.ob("R06.6", "PeerState::on_connection_closed/state-changes-only-for-a-matching-connection-id", bool(tests) and all(any(fn.only_via(w, sw, [t]) for sw, t, f in tests) for w, _ in wr), site=fn.site(fn.entry), cfg=fx.cfg)
 
 
+def r06_8(ctx, fx):
+    """direction of a QUIC connection: QuicTransport decides dialer vs listener by looking the connection id up in `pending_dials`
+    when the connection future resolves.  Every local path that hands a connection to `pending_connections` (dial(), and negotiate()
+    for connections opened through open()) records the dialed address in `pending_dials` first - otherwise an outbound connection is
+    announced as `Endpoint::Listener`, counted against max_incoming_connections and not against max_outgoing_connections."""
+    n = 0
+    for key in sorted(fx.find(r"^<transport::quic::QuicTransport as transport::Transport>::(dial|negotiate)$")):
+        fn = fx.fn(key)
+        push = [c for c in fn.calls(r"FuturesUnordered(<.*>)?::push$|FuturesStream(<.*>)?::push$") if ".pending_connections" in fn.recv(c)]
+        ins = [c.node for c in fn.calls(r"HashMap(<.*>)?::insert$") if ".pending_dials" in fn.recv(c)]
+        for i, c in enumerate(push):
+            n += 1
+            ctx.bodies.add((fx.cfg, key))
+            ok = bool(ins) and c.node not in fn.reach([fn.entry], avoid=ins)
+            ctx.ob("R06.8", "%s/pending_connections.push#%d-after-pending_dials.insert" % (short(key), i), ok, site=fn.site(c.node), cfg=fx.cfg,
+                   detail="pending_dials.insert calls in this function: %d" % len(ins))
+    ctx.anchor("R06.8", "QuicTransport dial/negotiate hand-overs", n, 2, cfg=fx.cfg)
+
+
 def run(ctx):
     fx = ctx.facts("default")
     r06_6(ctx, fx)
@@ -274,3 +293,5 @@ def run(ctx):
     # R06.2 releases the capacity on every path
     import C05
     C05.r05_2(ctx, fx)
+    if ctx.tier == "thorough":
+        r06_8(ctx, ctx.facts("all"))   # the QUIC transport exists only with the quic feature
